@@ -23,6 +23,9 @@ type request struct {
 	ctx  context.Context
 	msg  *Message
 	opts callOptions
+	// done is closed when a call that may receive several responses from a node
+	// (server streams) no longer reads them; nil for all other calls.
+	done <-chan struct{}
 }
 
 // waitForSend returns true if the WithNoSendWaiting call option is not set.
@@ -39,6 +42,17 @@ type response struct {
 type responseRouter struct {
 	c         chan<- response
 	streaming bool
+	done      <-chan struct{}
+}
+
+// send hands the response over to the call. It must not be called with the
+// routing lock held: a call that expects a stream of responses may not be
+// ready to receive yet, or may have ended (in which case done is closed).
+func (r responseRouter) send(resp response) {
+	select {
+	case r.c <- resp:
+	case <-r.done:
+	}
 }
 
 type channel struct {
@@ -114,32 +128,37 @@ func (c *channel) newNodeStream(conn *grpc.ClientConn) error {
 
 func (c *channel) cancelPendingMsgs() {
 	c.responseMut.Lock()
-	defer c.responseMut.Unlock()
+	routers := make([]responseRouter, 0, len(c.responseRouters))
 	for msgID, router := range c.responseRouters {
-		router.c <- response{nid: c.node.ID(), err: streamDownErr}
+		routers = append(routers, router)
 		// delete the router if we are only expecting a single reply message
 		if !router.streaming {
 			delete(c.responseRouters, msgID)
 		}
 	}
+	c.responseMut.Unlock()
+	for _, router := range routers {
+		router.send(response{nid: c.node.ID(), err: streamDownErr})
+	}
 }
 
 func (c *channel) routeResponse(msgID uint64, resp response) {
 	c.responseMut.Lock()
-	defer c.responseMut.Unlock()
-	if router, ok := c.responseRouters[msgID]; ok {
-		router.c <- resp
-		// delete the router if we are only expecting a single reply message
-		if !router.streaming {
-			delete(c.responseRouters, msgID)
-		}
+	router, ok := c.responseRouters[msgID]
+	// delete the router if we are only expecting a single reply message
+	if ok && !router.streaming {
+		delete(c.responseRouters, msgID)
+	}
+	c.responseMut.Unlock()
+	if ok {
+		router.send(resp)
 	}
 }
 
 func (c *channel) enqueue(req request, responseChan chan<- response, streaming bool) {
 	if responseChan != nil {
 		c.responseMut.Lock()
-		c.responseRouters[req.msg.Metadata.MessageID] = responseRouter{responseChan, streaming}
+		c.responseRouters[req.msg.Metadata.MessageID] = responseRouter{responseChan, streaming, req.done}
 		c.responseMut.Unlock()
 	}
 	// either enqueue the request on the sendQ or respond
